@@ -40,10 +40,6 @@ def known_entries():
     return list(ents.values())
 
 
-def gl_list(l):
-    return "[" + "; ".join('"%s"' % x.replace('"', '""') for x in l) + "]"
-
-
 def regenerate():
     """build the real schema generator from the current tree, run it, translate shipped + generated"""
     env = dict(vflib.ENV)
@@ -77,13 +73,8 @@ def schema_theorems(chk, known):
     tmpl = open(os.path.join(ROOT, "coq", LAYER, "Properties", "C15Schemas.v.in")).read()
     if vflib.FORBIDDEN.search(re.sub(r"\(\*.*?\*\)", "", tmpl, flags=re.S)):
         return None
-    stale = {}
-    for k in known:
-        if k.get("status") == "open" and k.get("schemas"):
-            for x in k["schemas"]:
-                stale[x] = k
     # first the three booleans and the differences alone (this file always compiles)
-    head = tmpl.split("(*@CURRENT model@*)")[0]
+    head = tmpl.split("Theorem shipped_is_current_model")[0]
     open(os.path.join(GEN, "C15Eval.v"), "w").write(head)
     rc, out, _ = coqc(os.path.join(GEN, "C15Eval.v"))
     if rc != 0:
@@ -95,21 +86,13 @@ def schema_theorems(chk, known):
     names = ["model", "migration", "config"]
     current = dict(zip(names, cur))
     diff = dict(zip(names, diffs))
-    # then the theorems: the refuted form only where a recorded finding says so AND the schema still differs
-    # (a finding whose schema has been regenerated is merely noted as stale; the positive form is then checked)
-    stale = {x: k for x, k in stale.items() if not current[x]}
     body = tmpl
-    for x in names:
-        keep, drop = ("STALE", "CURRENT") if x in stale else ("CURRENT", "STALE")
-        body = re.sub(r"\(\*@%s %s@\*\).*?\(\*@END@\*\)\n" % (drop, x), "", body, flags=re.S)
-        if x in stale:
-            body = re.sub(r"(\(\*@STALE %s@\*\).*?\(\*@END@\*\))" % x, lambda m: m.group(1).replace("@DIFF@", gl_list(stale[x].get("diff", []))), body, flags=re.S)
     open(os.path.join(GEN, "C15Schemas.v"), "w").write(body)
     rc, out, _ = coqc(os.path.join(GEN, "C15Schemas.v"))
     pins = re.findall(r"^Check\s+(\w+)\s*:", body, flags=re.M)
     closed = len(re.findall(r"Closed under the global context", out))
     return {"current": current, "diff": diff, "generated_is_schema_of": dict(zip(names, gso)), "compiled": rc == 0, "pins": pins,
-            "closed": closed, "log": out[-1500:], "stale_expected": {x: stale[x]["id"] for x in stale}}
+            "closed": closed, "log": out[-1500:]}
 
 
 def split_top(term):
@@ -222,17 +205,7 @@ def run(tier, seed):
     chk.cov["closed_under_global_context"] = chk.cov.get("closed_under_global_context", 0) + st["closed"]
     chk.cov["checker_cmd"] += " && tools/schema2coq.py (shipped + regenerated) && coqc coq/serde/Gen/C15Schemas.v (instantiated from Properties/C15Schemas.v.in)"
     chk.cov["schemas"] = {"shipped_equals_generated": st["current"], "difference": st["diff"], "generated_is_schema_of": st["generated_is_schema_of"]}
-    drift = []
-    for x, is_cur in st["current"].items():
-        ent = next((k for k in known if k.get("status") == "open" and x in k.get("schemas", [])), None)
-        if is_cur:
-            if ent:
-                chk.notes.append("NOTE stale known finding %s: the shipped %s schema equals the regenerated one" % (ent["id"], x))
-            continue
-        if ent and st["diff"][x] == ent.get("diff"):
-            chk.known_finding(ent["id"], ent["what"] + " [exact difference shipped -> regenerated: %s]" % ", ".join(st["diff"][x]))
-        else:
-            drift.append(x)
+    drift = [x for x, is_cur in st["current"].items() if not is_cur]      # a stale shipped schema is a violation
     for x in drift:
         rp = vflib.write_replay(PROP, "theorem:shipped_is_current_%s" % x, {
             "shipped": "%s/%s.schema.json" % (SHIPPED, x), "regenerated_by": "cargo run -p vespertide-schema-gen -- --out <dir>",
@@ -287,9 +260,7 @@ def run(tier, seed):
         "K-serde+K-schema on schema-guided mutants (decode vs hserde parse; valid = true)": {"cases": len(mutants), "mismatches": len(mut_model_mism)}}
 
     # ---- oracle on the implementation
-    stale_ent = next((k for k in known if k.get("status") == "open" and "migration" in k.get("schemas", [])), None)
     width_ent = next((k for k in known if k.get("status") == "open" and k.get("classifier") == "known_C15_unbounded"), None)
-    d4_members = {"id", "actions/*/fill_with"}
     failures, counts = [], collections.Counter()
     for i, (r, vd) in enumerate(zip(rows, verdicts)):
         if not vd:
@@ -301,15 +272,10 @@ def run(tier, seed):
                     failures.append(("written document does not validate against the shipped schema", i, e.get("errors")))
                 und = set(e.get("undeclared", []))
                 if und:
-                    if stale_ent and k == "rt_plan" and und <= d4_members and not st["current"]["migration"]:
-                        counts[stale_ent["id"]] += 1
-                    else:
-                        failures.append(("written document has members the shipped schema does not declare: %s" % sorted(und), i, None))
+                    failures.append(("written document has members the shipped schema does not declare: %s" % sorted(und), i, None))
         elif k.startswith("mut_") and vd[0]["shipped"] and not r.get("serde_ok"):
             if r.get("has_dup"):
                 counts["out-of-scope:repeated-member"] += 1
-            elif stale_ent and k == "mut_plan" and not vd[0]["generated"]:
-                counts[stale_ent["id"]] += 1
             elif width_ent and unb.get(i) and unb[i][0]:
                 counts[width_ent["id"]] += 1
             else:
@@ -319,18 +285,14 @@ def run(tier, seed):
         if m["serde_ok"]:
             continue
         b = mbits[k] if k < len(mbits) else None
-        if stale_ent and m["kind"] == "plan" and not m["generated_valid"]:
-            counts[stale_ent["id"]] += 1
-        elif width_ent and b and b[1]:
+        if width_ent and b and b[1]:
             counts[width_ent["id"]] += 1
         else:
             mfail.append(m)
     # stored witnesses of the open findings must still fail on the implementation
-    for ent in (stale_ent, width_ent):
+    for ent in (width_ent,):
         if not ent:
             continue
-        if ent is stale_ent:
-            continue        # confirmed (or noted stale) above from the schema comparison itself
         w = json.load(open(os.path.join(ROOT, ent["witness"])))
         pr = subprocess.run([binp, "parse"], input=json.dumps({"kind": w["kind"], "text": w["doc_text"]}) + "\n", capture_output=True, text=True)
         still = '"ok":false' in pr.stdout.replace(" ", "")
